@@ -119,6 +119,30 @@ def run(tier, rng, C):
         cases.append({'id': b, 'line': G.inv_line(b, tw, G.op_node('n')), 'show': G.show_inv(tw, 'node n'), 'nontrivial': False,
                       'twin': a, 'hasrefs': bool(getattr(inv, 'refvals', None))})
 
+    # a class file that is a symbolic link to a file in another directory of the class tree: the class is named and
+    # located by the path under which it was discovered, so its relative includes start from the link's directory
+    for i in range(30 if tier == 'quick' else 600):
+        inv = G.Inv()
+        d1, d2 = rng.sample(['a', 'b', 'x.y', '_u', 'deep'], 2)
+        dots = rng.choice(['.d', '.d', '..top', '.sub.e'])
+        cdoc = G.doc([dots], ['capp'], ('m', [(S('trace'), L(S('linked')))]))
+        pre1 = (d1,) if rng.random() < 0.7 else ('up', d1)
+        pre2 = (d2,) if len(pre1) == 1 else ('up', d2)
+        inv.classes[pre2 + ('c_real.yml',)] = cdoc
+        inv.classes[pre1 + ('c.yml',)] = ('linkfile', '../%s/c_real.yml' % d2, cdoc)
+        for pre, tag in ((pre1, 'one'), (pre2, 'two')):
+            inv.classes[pre + ('d.yml',)] = G.doc([], [], ('m', [(S('d'), S(tag)), (S('trace'), L(S(tag + '.d')))]))
+            inv.classes[pre + ('sub', 'e.yml')] = G.doc([], [], ('m', [(S('d'), S(tag + '-e')), (S('trace'), L(S(tag + '.e')))]))
+        inv.classes[('top.yml',)] = G.doc([], [], ('m', [(S('d'), S('top')), (S('trace'), L(S('top')))]))
+        if len(pre1) == 2:
+            inv.classes[('up', 'top.yml')] = G.doc([], [], ('m', [(S('d'), S('uptop')), (S('trace'), L(S('up.top')))]))
+        which = rng.choice(['link', 'real', 'both'])
+        incs = {'link': ['.'.join(pre1) + '.c'], 'real': ['.'.join(pre2) + '.c_real'], 'both': ['.'.join(pre2) + '.c_real', '.'.join(pre1) + '.c']}[which]
+        inv.nodes[('n.yml',)] = G.doc(incs, [], ('m', [(S('trace'), L(S('NODE')))]))
+        inv.universe.update(['top', 'up.top'] + ['.'.join(p + (x,)) for p in (pre1, pre2) for x in ('c', 'c_real', 'd', 'sub.e')])
+        cid = C.case_id('k', i)
+        cases.append({'id': cid, 'line': G.inv_line(cid, inv, G.op_node('n')), 'show': G.show_inv(inv, 'node n'), 'nontrivial': True})
+
     def oracle(cases, mobs, iobs):
         fails = []
         for c in cases:
@@ -138,6 +162,6 @@ def run(tier, rng, C):
         return fails
     rule = ('exhaustive: abs_class_name for every location of depth <= 3 over {a,b,c}, 0-6 leading dots, 6 suffix shapes (through the '
             'hook); %d twin inventories (class trees of depth <= 3 with init classes, includes written relatively incl. past-root '
-            'dot counts, nodes with leading dots, node files in sub-directories of the nodes directory) rendered with relative names and with the absolute names they denote; oracle: '
+            'dot counts, nodes with leading dots, node files in sub-directories of the nodes directory) rendered with relative names and with the absolute names they denote; plus class files that are symbolic links into another directory, with relative includes; oracle: '
             'twin outputs identical; non-trivial = >= 2 dots or a relative twin' % ntw)
     return C.standard_run(cases, rule, key_fn=lambda c, m, i, r: 'model-impl-differ', extra_oracle=oracle, exhaustive=True)
